@@ -132,21 +132,18 @@ func (bv *BitVector) Equals() bool {
 		return false
 	}
 
-	l := len(bv.b)
-
+	// only the bytes that hold the vector's bits count; the backing slice may be longer
+	l := bv.len / 8
 	length := bv.len % 8
 	for i := 0; i < l; i++ {
-		if length != 0 && i == l-1 {
-			for length > 0 {
-				length--
-				if bv.b[i]&(0x01<<uint(length%8)) == 0 {
-					return false
-				}
-			}
-		} else {
-			if bv.b[i] != 0xff {
-				return false
-			}
+		if bv.b[i] != 0xff {
+			return false
+		}
+	}
+	for length > 0 {
+		length--
+		if bv.b[l]&(0x01<<uint(length)) == 0 {
+			return false
 		}
 	}
 	return true
